@@ -31,7 +31,7 @@ def cases(tier):
     # non-decimal base with all 2^32 values
     q = tier == "quick"
     for w in (32, 64):
-        cs.append(c14.mk(w, 10, 0, 0, 9999 if q else 999999, timeout=1800, tag="-lo"))
+        cs.append(c14.mk(w, 10, 0, 0, 9999 if q else 99999, timeout=1800, tag="-lo"))
         cs.append(c14.mk(w, 10, 1, 0, 999 if q else 9999, timeout=1800, tag="-lo"))
         c = 2 ** (w - 1)
         cs.append(c14.mk(w, 10, 0, c - 2, c + 2, timeout=900, tag="-win%d" % c))
